@@ -67,6 +67,24 @@ def check_source(src, run_patterns=(), globals0=None):
     warnings = [w for w in impl.bs.lint_script(model) if 'label' in w.lower()]
     if warnings:
         raise Violation('lint reports label warnings for structured code: %r' % warnings[:3], d, 'lint-label-warning')
+    # the same text handed over in several parts (the documented non-str form of script_text): the lowering is that of the whole text, wherever
+    # the parts are cut (inside a function body, inside an open block)
+    lines = src.split('\n')
+    if len(lines) > 3:
+        h = sum(map(ord, src[:200])) + len(src)
+        cuts = sorted({1 + (h * k) % (len(lines) - 1) for k in (1, 7, 13)})[:1 + h % 3]
+        parts, prev = [], 0
+        for c in cuts + [len(lines)]:
+            parts.append('\n'.join(lines[prev:c]))
+            prev = c
+        try:
+            model_parts = impl.bs.parse_script(parts)
+        except Exception as e:  # pylint: disable=broad-except
+            raise Violation('the same source in %d parts does not parse: %s' % (len(parts), e), dict(d, parts=parts), 'parts-parse') from e
+        if model_parts != model:
+            bad = analyse(model_parts)
+            raise Violation('the same source in %d parts is lowered differently%s' % (len(parts), (': ' + '; '.join(bad[:2])) if bad else ''), dict(d, parts=parts),
+                            'parts-lowering')
     for pattern in run_patterns:
         log = []
         g = dict(globals0 or {})
